@@ -151,6 +151,15 @@ func TestWorker(t *testing.T) {
 		out.Steps += res.Steps
 		out.Events += res.Events
 		if res.Cut != nil {
+			if dump := os.Getenv("VERIF_DUMP_CUT"); dump != "" && res.Trace != nil && ps.Replay != nil {
+				// developer aid: minimise and save a run that was cut on a foreign divergence
+				ps2 := *ps
+				ps2.Verdict = append(append([]string{}, ps.Verdict...), res.Cut.Class)
+				min := Shrink(&ps2, res.Trace, res.Cut.Class, res.Cut.Step, 30*time.Second)
+				rf := ReplayFile{Property: ps.ID, Seed: seed, Class: res.Cut.Class, Message: res.Cut.Msg, FailedAt: res.Cut.Step, Trace: min, Original: res.Trace}
+				b, _ := json.MarshalIndent(rf, "", " ")
+				_ = os.WriteFile(dump, b, 0o644)
+			}
 			out.Cuts++
 			if out.CutSample == "" {
 				out.CutSample = fmt.Sprintf("seed %d: %s", seed, res.Cut.Error())
